@@ -6,5 +6,5 @@ PFX="$1"; shift
 for P in "$@"; do
   ids=$(lib/import_seeded2.py "$P" "$PFX" | awk '{print $1}')
   lib/run_seeded.py $ids 2>&1 | grep -E "CAUGHT|MISSED"
-  for i in $ids; do lib/verify_seeded.py $i 2>&1 | tail -1 & done; wait
+  n=0; for i in $ids; do n=$((n+1)); VERIF_SEED_SLOT="${VERIF_SEED_SLOT:-0}_$n" lib/verify_seeded.py $i 2>&1 | tail -1 & done; wait
 done
